@@ -1,6 +1,7 @@
 package main
 
 import (
+	"os"
 	"bytes"
 	"encoding/json"
 	"flag"
@@ -72,6 +73,7 @@ type endEv struct {
 	RendOK    *int   `json:"rendok,omitempty"`
 	EncOK     *int   `json:"encok,omitempty"`
 	NilDst    *int   `json:"nildst,omitempty"`
+	LogDst    *int   `json:"logdst,omitempty"`
 }
 
 func intp(i int) *int { return &i }
@@ -161,6 +163,8 @@ func runRecorder(src []byte, opts []decode.DecodeOption) (rec *Recorder, hs []in
 }
 
 // traceDecode records one trace for the input src.
+var devNull, _ = os.OpenFile(os.DevNull, os.O_WRONLY, 0)
+
 func traceDecode(w *Writer, id string, src0 []byte, fl decFlags) (ncalls int, accepted bool) {
 	src := append([]byte(nil), src0...)
 	se := srcEv{Ev: "src", ID: id, B: bytesJ(src0), Opts: fl.optsJ}
@@ -213,6 +217,19 @@ func traceDecode(w *Writer, id string, src0 []byte, fl decFlags) (ncalls int, ac
 		on := guarded(func() error { return decode.Decode(nil, src, fl.opts...) })
 		ee.NilDst = intp(on.ok())
 		if on.panicv != nil || on.hang {
+			ee.Panic = 1
+		}
+		// the logging-only use of the public DestinationLogger (no destination behind it): same outcome, no panic
+		ol := guarded(func() error {
+			so := os.Stdout
+			if devNull != nil {
+				os.Stdout = devNull
+			}
+			defer func() { os.Stdout = so }()
+			return decode.Decode(&ivg.DestinationLogger{Alt: len(src)%2 == 1}, src, fl.opts...)
+		})
+		ee.LogDst = intp(ol.ok())
+		if ol.panicv != nil || ol.hang {
 			ee.Panic = 1
 		}
 	}
